@@ -118,6 +118,8 @@ class C16(Prop):
             yield {"stream": "pd", "container": container, "rows": rows, "j": j, "k": kk, "grid": grid,
                    "grid_container": gcont, "w": w, "n_max": nmax, "seed": seed, "int_pred": rng.random() < 0.3,
                    "pred_ret": rng.choice(["np", "np", "polars", "list_np"]),
+                   # a model that is not defined everywhere: NaN for the rows whose other column equals nan_k at ONE grid value
+                   "nan_rule": ({"k_val": rows[rng.randrange(n)][kk], "gi": rng.randrange(ng)} if rng.random() < 0.12 else None),
                    # a Python list X in which equal rows are ONE object occurring several times
                    "share_rows": container in ("list", "list_np_int_rows") and rng.random() < 0.5,
                    "a": rng.randint(-2, 3), "b": rng.randint(-2, 2), "c": rng.randint(-1, 3)}
@@ -173,7 +175,11 @@ class C16(Prop):
             elif isinstance(X, np.ndarray) and isinstance(Xs, np.ndarray):
                 aliased.append(bool(np.shares_memory(Xs, X)))
             val = a * xj * xk + b * xk * xk + c * xj
-            if case.get("int_pred") and np.all(val == np.round(val)):
+            if case.get("nan_rule"):
+                nr = case["nan_rule"]
+                val = np.asarray(val, dtype=float)
+                val[(xk == float(nr["k_val"])) & (xj == float(Fraction(case["grid"][nr["gi"]])))] = np.nan
+            if case.get("int_pred") and not case.get("nan_rule") and np.all(val == np.round(val)):
                 val = val.astype(np.int64)  # a model that predicts whole numbers (counts, classes) as integers
             if case.get("pred_ret") == "polars":
                 return pl.Series("prediction", val)  # a model that answers with a polars Series
@@ -232,7 +238,10 @@ class C16(Prop):
             return None
         if "err" in io:
             return f"valid call rejected: {io['err']}: {io.get('msg')}"
+        nan_at = self.nan_positions(case)
         for i, (u, v) in enumerate(zip(io["pd"], dec_list(mo["pd"]))):
+            if i in nan_at:
+                continue  # an undefined prediction in the block: the average is NaN (checked by the oracle), outside the exact model
             if not close(u, v, 1e-12, 1e-12):
                 return f"partial dependence at grid value {case['grid'][i]}: {u!r}, model {float(v)!r}"
         if "caller_after" in mo:
@@ -244,6 +253,19 @@ class C16(Prop):
                 key = "shown_matrix_shares_with_caller" if io["aliased"] else "shown_matrix_is_fresh"
                 self.alias_counts[key] = self.alias_counts.get(key, 0) + 1
         return None
+
+    def nan_positions(self, case):
+        """grid positions whose block of predictions contains a NaN (the partial dependence there is NaN: np.average propagates)"""
+        nr = case.get("nan_rule")
+        if not nr:
+            return set()
+        rows = case["rows"]
+        sub = self.subsample(case)
+        if sub is not None:
+            rows = [rows[i] for i in sub]
+        g = Fraction(case["grid"][nr["gi"]])
+        hit = any(r[case["k"]] == nr["k_val"] for r in rows)
+        return {i for i, gv in enumerate(case["grid"]) if hit and Fraction(gv) == g}
 
     @staticmethod
     def refusal_ok(case, io):
@@ -264,13 +286,19 @@ class C16(Prop):
             ws = None if ws is None else [ws[i] for i in sub]
         n = len(rows)
         j, k, a, b, c = case["j"], case["k"], case["a"], case["b"], case["c"]
+        nan_at = self.nan_positions(case)
         for gi, g in enumerate(case["grid"]):
+            if gi in nan_at:
+                if not math.isnan(io["pd"][gi]):
+                    return (f"value at grid point {float(Fraction(g))} is {io['pd'][gi]!r} although the predict function is NaN for some of the rows "
+                            f"it averages (the definition gives NaN)")
+                continue
             g = Fraction(g)
             vals = [a * g * r[k] + b * r[k] * r[k] + c * g for r in rows]
             ref = sum(vals) / n if ws is None else sum(w * v for w, v in zip(ws, vals)) / sum(ws)
             if abs(io["pd"][gi] - float(ref)) > 1e-12 * max(1.0, abs(float(ref))):
                 return f"value at grid point {float(g)} is {io['pd'][gi]!r}, definition gives {float(ref)!r}"
-        if io["pd"] != io["pd2"]:
+        if [None if math.isnan(v) else v for v in io["pd"]] != [None if math.isnan(v) else v for v in io["pd2"]]:
             return "equal seeds give different results"
         if not io["unchanged"]:
             return f"the caller's {io['changed']} changed during the call"
